@@ -77,14 +77,63 @@ def gen_case(seed, idx):
         opts["lower"] = True
     if rng.random() < 0.3:
         opts["alias"] = ["proj = The Project", "ver = 1.2.3"]
+    if idx % 12 == 7 and os.path.isfile("/repo/example/fpm.toml"):
+        # FORD's own example project (admonitions, LaTeX, fixed form, types, interfaces, extra file types, pages)
+        return {"corpus": "example", "idx": idx, "world": w, "layout": "normal",
+                "options": {"graph": rng.random() < 0.7, "search": rng.random() < 0.7, "graph_dir": rng.random() < 0.5,
+                            "externalize": rng.random() < 0.5, "sort": rng.choice(SORTS), "parallel": 0}}
     case = {"world": w, "options": opts, "layout": lay, "exclude": rng.random() < 0.3, "two_includes": rng.random() < 0.3, "fixed_form": rng.random() < 0.25, "odd_shapes": rng.random() < 0.3,
             "many_files": rng.random() < 0.15, "pages": rng.random() < 0.35 and lay == "normal",
             "media": rng.random() < 0.25 and lay == "normal", "extra_ft": rng.random() < 0.2, "idx": idx}
     return case
 
 
+def read_tree(top):
+    """{relpath: str | {"b64":..}} of a directory of the repository (FORD's own example projects)"""
+    import base64
+    out = {}
+    for dp, dns, fns in os.walk(top):
+        dns.sort()
+        for fn in sorted(fns):
+            p = os.path.join(dp, fn)
+            rel = os.path.relpath(p, top)
+            data = open(p, "rb").read()
+            try:
+                out[rel] = data.decode("utf-8")
+                if "\r" in out[rel]:
+                    raise UnicodeDecodeError("utf-8", b"", 0, 1, "keep bytes")
+            except UnicodeDecodeError:
+                out[rel] = {"b64": base64.b64encode(data).decode()}
+    return out
+
+
+def build_corpus_files(case):
+    """FORD's own example project as a world (settings come from its fpm.toml)."""
+    files = {"home/.keep": ""}
+    tree = read_tree("/repo/example")
+    for k, v in tree.items():
+        files["p/" + k] = v
+    toml = tree["fpm.toml"].replace('preprocess = "true"', 'preprocess = "false"')
+    extra = ["parallel = 0"]
+    o = case["options"]
+    if not o.get("graph"):
+        toml = toml.replace("graph = true", "graph = false")
+    if not o.get("search"):
+        toml = toml.replace("search = true", "search = false")
+    if o.get("graph_dir"):
+        extra.append('graph_dir = "./doc/graphs"')
+    if o.get("externalize"):
+        extra.append("externalize = true")
+    extra.append('sort = "%s"' % o.get("sort", "src"))
+    toml = toml.replace('page_dir = "pages"', 'page_dir = "pages"\n' + "\n".join(extra))
+    files["p/fpm.toml"] = toml
+    return files, ["ford", "example-project-file.md"], "p/doc", ("p/doc/graphs" if o.get("graph_dir") else None)
+
+
 def build_files(case, seed):
     """-> (files, argv, outdir_rel, graphdir_rel|None)"""
+    if case.get("corpus") == "example":
+        return build_corpus_files(case)
     idx = case["idx"]
     src = W.render_sources(case["world"], seeds.stream(seed, PROP, idx, "render"))
     opts = dict(case["options"])
@@ -473,6 +522,13 @@ def reduce_plan(case, seed, variant, sig_locus, workdir):
 
 
 def case_candidates(case):
+    if case.get("corpus"):
+        for k, v in sorted(case["options"].items()):
+            if v and k != "sort":
+                c = copy.deepcopy(case)
+                c["options"][k] = False
+                yield "corpus option " + k, c
+        return
     for desc, w in W.shrink_candidates(case["world"]):
         c = copy.deepcopy(case)
         c["world"] = w
